@@ -19,7 +19,7 @@ func genAttempt(t *rapid.T) Attempt {
 	if a.Conn != "park" {
 		a.ConnDelay = rapid.SampledFrom([]int{0, 0, 0, 1, 2, 4}).Draw(t, "conn-delay")
 	}
-	a.Sub = rapid.SampledFrom([]string{"ok", "ok", "ok", "ok", "ok", "ok", "ok", "err"}).Draw(t, "sub")
+	a.Sub = rapid.SampledFrom([]string{"ok", "ok", "ok", "ok", "ok", "ok", "ok", "err", "ok", "ok", "ok", "ok", "ok", "ok", "err", "park"}).Draw(t, "sub")
 	a.Msgs = rapid.SliceOfN(rapid.Custom(genMsg), 0, 4).Draw(t, "msgs")
 	if len(a.Msgs) == 0 {
 		a.Msgs = nil
@@ -40,7 +40,23 @@ func genAttempt(t *rapid.T) Attempt {
 		a.EndErr = genErrKind(t, "end-err", recvErrKinds, 2)
 	}
 	a.CloseErr = genErrKind(t, "close-err", errKinds, 6)
+	// Transport calls that take time or block: the write of the subscription
+	// request (SubDelay, Sub "park") and of a poll request.
+	a.SubDelay = rapid.SampledFrom([]int{0, 0, 0, 0, 0, 0, 0, 1, 2, 4}).Draw(t, "sub-delay")
+	a.Poll = rapid.SampledFrom([]string{"", "", "", "", "block", "deaf", "delay", "err"}).Draw(t, "poll")
+	if a.Poll == "delay" {
+		a.PollDelay = rapid.SampledFrom([]int{1, 2, 5, 20}).Draw(t, "poll-delay")
+	}
 	return a
+}
+
+// genCtxKind draws the shape of a caller's context: the plain cancel function
+// two times in three, otherwise any shape (those that end by a deadline first).
+func genCtxKind(t *rapid.T) string {
+	if rapid.IntRange(0, 2).Draw(t, "ctx-varied") != 2 {
+		return ""
+	}
+	return rapid.SampledFrom([]string{"deadline", "deadline", "parent-deadline", "value-deadline", "far-deadline", "value", "parent-cancel"}).Draw(t, "ctx")
 }
 
 // genDecoy: one case in eight names a second, always failing client type.
@@ -90,13 +106,18 @@ func genScenario(t *rapid.T, favourDefault bool) *Scenario {
 	sc.BaseDelay = rapid.SampledFrom(bases).Draw(t, "base-delay")
 	sc.MaxDelay = sc.BaseDelay * rapid.SampledFrom([]int{1, 2, 2, 3, 5, 10}).Draw(t, "max-factor")
 	sc.Timeout = rapid.SampledFrom([]int{0, 0, 5, 50}).Draw(t, "timeout")
-	sc.Stop = rapid.SampledFrom([]string{"close", "close", "close", "close", "cancel"}).Draw(t, "stop")
+	sc.Stop = rapid.SampledFrom([]string{"close", "close", "close", "close", "cancel", "cancel"}).Draw(t, "stop")
 	sc.Decoy, sc.DecoyFirst = genDecoy(t)
 	sc.Query = genQueryKind(t)
+	// how the caller's context ends (Stop "cancel") / what else it carries
+	sc.Ctx = genCtxKind(t)
+	if sc.Stop == "cancel" && sc.Ctx == "" && rapid.Bool().Draw(t, "ctx-deadline") {
+		sc.Ctx = rapid.SampledFrom([]string{"deadline", "deadline", "parent-deadline", "value-deadline"}).Draw(t, "ctx-ends-by")
+	}
 
 	if sc.Plain {
 		a := genAttempt(t)
-		a.Conn, a.ConnDelay, a.Sub = "ok", 0, "ok"
+		a.Conn, a.ConnDelay, a.Sub, a.SubDelay = "ok", 0, "ok", 0
 		if rapid.IntRange(0, 1).Draw(t, "plain-blocks") == 1 {
 			a.End, a.EndDelay = "block", 0
 		}
@@ -248,10 +269,18 @@ func genDeafAim(t *rapid.T, sc *Scenario, mode string) {
 	sc.StopAt = ulo + (uhi-ulo)*frac/7
 }
 
-// genLife draws one case of part "lifetime": the client configuration and
-// transport script of half A plus a sequence of 1-8 calls on the one client.
-func genLife(t *rapid.T) *LScenario {
-	sc := &LScenario{}
+// genLife draws one case of part "lifetime" (profile "") or "entry" (profile
+// "entry"): the client configuration and transport script of half A plus a
+// sequence of 1-10 calls on the one client.
+//
+// Profile "entry" aims the same machinery at the entry points other than
+// Subscribe and Close: the first Subscribe mostly carries a POLL query, most
+// streams end by themselves after their data (as a POLL subscription does after
+// its sync), most transports block or delay the write of a poll request, and
+// the steps are mostly Poll and Impl calls at instants around the backoff.
+func genLife(t *rapid.T, profile string) *LScenario {
+	entry := profile == "entry"
+	sc := &LScenario{Profile: profile}
 	sc.Client = rapid.SampledFrom([]string{"base", "base", "cache"}).Draw(t, "client")
 	sc.Proto = rapid.IntRange(0, 3).Draw(t, "proto") == 3 && sc.Client == "base"
 	sc.Plain = rapid.IntRange(0, 5).Draw(t, "plain") == 5
@@ -260,46 +289,88 @@ func genLife(t *rapid.T) *LScenario {
 	sc.Timeout = rapid.SampledFrom([]int{0, 0, 5, 50}).Draw(t, "timeout")
 	sc.NilCallbacks = rapid.IntRange(0, 11).Draw(t, "nil-callbacks") == 11 && !sc.Plain
 	sc.Decoy, sc.DecoyFirst = genDecoy(t)
-	sc.Attempts = rapid.SliceOfN(rapid.Custom(genAttempt), 0, 6).Draw(t, "attempts")
+	minAttempts := 0
+	if entry {
+		minAttempts = rapid.SampledFrom([]int{0, 1, 2, 2, 3}).Draw(t, "min-attempts")
+	}
+	sc.Attempts = rapid.SliceOfN(rapid.Custom(genAttempt), minAttempts, 6).Draw(t, "attempts")
+	if entry {
+		for i := range sc.Attempts {
+			a := &sc.Attempts[i]
+			if rapid.IntRange(0, 5).Draw(t, "round-ends") != 0 {
+				a.End, a.EndErr = rapid.SampledFrom([]string{"stop", "stop", "eof"}).Draw(t, "round-end"), ""
+				a.EndDelay = rapid.SampledFrom([]int{0, 0, 1}).Draw(t, "round-end-delay")
+			}
+			if rapid.IntRange(0, 3).Draw(t, "poll-stalls") != 0 {
+				a.Poll = rapid.SampledFrom([]string{"block", "deaf", "deaf", "delay"}).Draw(t, "poll-stall")
+				if a.Poll == "delay" {
+					a.PollDelay = rapid.SampledFrom([]int{1, 2, 5, 20, sc.BaseDelay, sc.MaxDelay + 1}).Draw(t, "poll-stall-delay")
+				}
+			}
+		}
+	}
 	if sc.Plain {
 		for i := range sc.Attempts {
 			a := &sc.Attempts[i]
 			if a.Conn != "ok" && a.Conn != "err" {
 				a.Conn, a.ConnErr = "ok", ""
 			}
-			a.ConnDelay = 0
+			if a.Sub == "park" {
+				a.Sub = "ok"
+			}
+			a.ConnDelay, a.SubDelay = 0, 0
 		}
 	}
 	waits := []int{0, 0, 0, 1, 1, 2, 3, 5, sc.BaseDelay, sc.BaseDelay + 1, 2 * sc.BaseDelay, sc.MaxDelay + 1}
 	// Close is final for a reconnecting client, so it is the rarer step: most
 	// of the sequence happens on a client that can still be used.
-	kinds := []string{"subscribe", "subscribe", "subscribe", "subscribe", "subscribe", "cancel", "cancel", "cancel", "cancel", "close", "close", "poll"}
+	kinds := []string{"subscribe", "subscribe", "subscribe", "subscribe", "subscribe", "cancel", "cancel", "cancel", "cancel", "close", "close", "poll", "impl"}
+	if entry {
+		kinds = []string{"poll", "poll", "poll", "poll", "poll", "poll", "impl", "impl", "subscribe", "subscribe", "cancel", "close"}
+		waits = append(waits, sc.BaseDelay/2, sc.BaseDelay-1, sc.MaxDelay)
+	}
+	deadlines := []int{0, 1, 2, 3, 5, sc.BaseDelay, sc.BaseDelay + 1, 2*sc.BaseDelay + 1, sc.MaxDelay + 2, 3 * sc.MaxDelay}
 	sc.Ops = rapid.SliceOfN(rapid.Custom(func(t *rapid.T) LifeOp {
 		op := LifeOp{Kind: rapid.SampledFrom(kinds).Draw(t, "kind"), Wait: rapid.SampledFrom(waits).Draw(t, "wait")}
 		op.Cancelled = rapid.IntRange(0, 9).Draw(t, "cancelled-context") == 9 && op.Kind == "subscribe"
-		if q := genQueryKind(t); op.Kind == "subscribe" {
-			op.Query = q
+		q, ck, dl := genQueryKind(t), genCtxKind(t), rapid.SampledFrom(deadlines).Draw(t, "deadline")
+		if op.Kind == "subscribe" {
+			op.Query, op.Ctx = q, ck
+			if ctxSelfEnding(ck) && !op.Cancelled {
+				op.Deadline = dl
+			}
 		}
 		return op
 	}), 1, 10).Draw(t, "ops")
 	// three sequences in four start with Subscribe
-	if rapid.IntRange(0, 3).Draw(t, "subscribe-first") != 0 || sc.Ops[0].Kind == "cancel" {
-		sc.Ops[0].Kind = "subscribe"
+	sf := rapid.IntRange(0, 7).Draw(t, "subscribe-first")
+	if (entry && sf != 0) || (!entry && sf%4 != 0) || sc.Ops[0].Kind == "cancel" {
+		first := &sc.Ops[0]
+		if first.Kind != "subscribe" {
+			*first = LifeOp{Kind: "subscribe", Wait: first.Wait}
+		}
+		if entry {
+			first.Cancelled = false
+			if rapid.IntRange(0, 4).Draw(t, "poll-query") != 0 {
+				first.Query = "poll"
+			}
+		}
 	}
 	// A Subscribe step that would find the previous Subscribe of a
 	// reconnecting client still running is skipped by the runner: make it the
 	// cancellation of that Subscribe instead (a plain client's stream may have
-	// ended by itself, so its steps stay as drawn).
+	// ended by itself, so its steps stay as drawn; a Subscribe whose context
+	// ends by a deadline is waited for).
 	open, closed := false, false
 	for i := range sc.Ops {
 		op := &sc.Ops[i]
 		if op.Kind == "subscribe" && open && !sc.Plain {
-			op.Kind, op.Query = "cancel", ""
+			*op = LifeOp{Kind: "cancel", Wait: op.Wait}
 		}
 		op.Cancelled = op.Cancelled && op.Kind == "subscribe"
 		switch op.Kind {
 		case "subscribe":
-			open = !closed && !op.Cancelled && !queryRefused(op.Query, sc.Plain, sc.Client == "cache")
+			open = !closed && !op.Cancelled && !queryRefused(op.Query, sc.Plain, sc.Client == "cache") && !ctxSelfEnding(op.Ctx)
 		case "cancel":
 			open = false
 		case "close":
